@@ -131,6 +131,11 @@ fixed("C11", "glob-absolute-path-root", "232040201", "globs over absolute local 
 fixed("C14", "insert-column-list-ignored", "09b3e0874", "INSERT INTO t (col, ..) ignored the column list and inserted positionally, silently storing values in the wrong columns", ["C01"])
 fixed("C14", "insert-select-from-target-reads-own-writes", "f7aae1915", "INSERT INTO t SELECT .. FROM t scanned segments flushed by its own insert partitions: under some schedules (deterministic lifo with >= 2 partitions, some random ones) it inserted k x n rows, and with more rows than one segment (32768) it never terminated", ["C04", "C03"])
 fixed("C14", "values-first-row-decimal-type-rounds-later-rows", "e65ab5b2e", "VALUES typed a decimal column by its first row only: VALUES (0.5), (-2.25) returned -2.3 (silent rounding), also through INSERT .. VALUES", ["C18", "C05", "C01"])
+fixed("C18", "show-announces-utf8-for-typed-settings", "f3c75e9e1", "SHOW <setting> announced a Utf8 column but produced the setting's scalar type (UInt64 array for partitions/batch_size, Boolean for enable_optimizer)", ["C14"])
+fixed("C18", "arith-rebind-widens-decimal", "e506288f9", "arithmetic over operands that need a decimal cast announced one type and produced another: 1::utinyint + 1::tinyint announced Decimal64(4,0), arrays were Decimal64(5,0) (physical planning re-bound the function over inputs the first bind had already cast)", ["C05", "C12"])
+fixed("C13", "int-float-to-decimal-scale-power-overflow", "ffe02ed2c", "casting an integer or float to DECIMAL(p,s) with s >= 10 computed 10^s as an i32: panic 'attempt to multiply with overflow' at bind time in debug builds, wrong scale factor in release builds", ["C18", "C15", "C12"])
+fixed("C20", "substring-nonpositive-start-spins", "83436cfe3", "substring/substr with a start position <= 0 looped ~2^64 times ((from - 1) as usize): the statement never returned", ["C15", "C05"])
+fixed("C20", "lpad-rpad-count-shorter-than-string", "b621e368b", "lpad(s, n) with n below the character length sliced by bytes (panic inside a multi-byte character and for negative n: 'end byte index .. out of bounds', pad.rs); rpad(s, negative) returned s instead of the empty string", ["C15", "C05"])
 fixed("C17", "csv-last-record-without-newline-dropped", "901a81dae", "read_csv dropped the last record of a file not ending in a line break", ["C11"])
 fixed("C17", "csv-inference-ignores-unterminated-last-record", "8f587fc55", "dialect/type inference ignored the final record without line break even when the whole file was in the sample", [])
 fixed("C17", "csv-partial-record-leading-empty-fields-lost", "5395bbc8c", "leading empty fields of a record split across reads were lost (clear_completed discarded field ends of a partial record with no bytes yet), so results depended on read chunking/batch size", ["C03", "C16"])
